@@ -626,7 +626,8 @@ def fancy_name(rng, text):
 
 NUM_SPELLINGS = ["0", "-0", "1", "-1", "10", "42", "100", "9007199254740991", "-9007199254740991", "0.5", "-0.5", "1.0", "1.5e0", "1e2", "1E2",
                  "1e+2", "1E-2", "100.0", "1.0e2", "0.1", "0.10", "1e-20", "2E-20", "1e300", "-1e300", "0e0", "0.0", "-0.0", "12.5e-1", "3.0", "25e-1",
-                 "123456789", "1e0", "9.007199254740991e15"]
+                 "123456789", "1e0", "9.007199254740991e15", "1e02", "1.5e02", "5e-01", "1e-0", "2E-00", "1e+00", "1e007", "0e-0", "-1.0E+01",
+                 "10e-01", "0.0e00"]
 
 TOKEN_ALPHABET = list("$@.[]()*?:,!&|=<>'\"\\-+_0123456789abcefnrtuxAEDF \t\n\r") + ["..", "&&", "||", "==", "!=", "<=", ">=", "é", "\U0001F600", " ", " ", "\x00", "\x1f", "\x7f"]
 
